@@ -161,3 +161,19 @@ Proof.
   - apply trains_nothing_hist_ok. apply from_config_trains_nothing.
   - apply trains_nothing_never_trains. apply from_config_trains_nothing.
 Qed.
+
+(* "replacing ... components": the builder obtained from modify() has a node rebound to ANY component -- another instance of the class the
+   node already runs, an instance of another class, a class with settings, a function, an input, a literal (`ns`) --, is rewired by any
+   edit, is built, and the original and the derivative are run: the pipeline is exactly what it was (nodes with their instances and the
+   state these were trained to, wiring, aliases, default, name).  replace_component rebinds the BUILDER's entry for the name; it writes
+   nothing through the node it found there. *)
+Theorem modify_replace_frozen_l : forall ops1 j p name ns f,
+  nth_error (st_pipes (run init ops1)) j = Some p ->
+  let s1 := run init ops1 in let i := length (st_pblds s1) in
+  let s2 := run s1 [PModify j; PBNode i name ns; PBWire i name f; PBuild i; PRun j; PRun (length (st_pipes s1))] in
+  nth_error (st_pipes s2) j = Some p /\ obs_p s2 p = obs_p s1 p.
+Proof.
+  intros ops1 j p name ns f H. cbv zeta. apply pipeline_frozen_from_init_l; [exact H| |].
+  - apply trains_nothing_hist_ok. repeat constructor.
+  - apply trains_nothing_never_trains. repeat constructor.
+Qed.
